@@ -522,6 +522,87 @@ async fn busy_node_still_dials(_a: &Value) -> Value {
     json!({"runs": out})
 }
 
+/// C12 on real networks: RPCs abandoned by the caller at every point (future dropped before it is polled, while a 4 MB request is being sent, after
+/// the remote handler started; by a timeout).  The remote handler -- a future holding a guard whose Drop is observed -- must be dropped promptly instead of
+/// running to completion; 40 abandoned RPCs must not use up the listener's 4 concurrent streams; an RPC in flight meanwhile is not disturbed.
+async fn abandoned_rpcs(_a: &Value) -> Value {
+    use std::sync::{Arc, Mutex};
+    #[derive(Default, Clone, Debug)] struct Rec { started: bool, dropped_unfinished_after_ms: Option<u64>, completed: bool }
+    struct Guard { id: String, t0: std::time::Instant, recs: Arc<Mutex<HashMap<String, Rec>>>, done: bool }
+    impl Drop for Guard { fn drop(&mut self) { let mut g = self.recs.lock().unwrap(); let r = g.entry(self.id.clone()).or_default(); if self.done { r.completed = true; } else { r.dropped_unfinished_after_ms = Some(self.t0.elapsed().as_millis() as u64); } } }
+    let recs: Arc<Mutex<HashMap<String, Rec>>> = Arc::new(Mutex::new(HashMap::new()));
+    let r2 = recs.clone();
+    let svc = tower::ServiceExt::boxed_clone(tower::service_fn(move |r: Request<Bytes>| { let recs = r2.clone(); async move {
+        let body = r.into_body();
+        let text = String::from_utf8_lossy(&body[..body.len().min(40)]).into_owned();
+        if let Some(rest) = text.strip_prefix("slow:") {
+            let (id, ms) = { let mut it = rest.split(':'); (it.next().unwrap_or("").to_owned(), it.next().and_then(|x| x.trim_end_matches(char::from(0)).parse::<u64>().ok()).unwrap_or(5000)) };
+            recs.lock().unwrap().entry(id.clone()).or_default().started = true;
+            let mut g = Guard { id, t0: std::time::Instant::now(), recs: recs.clone(), done: false };
+            tokio::time::sleep(Duration::from_millis(ms)).await;
+            g.done = true;
+        }
+        Ok::<_, std::convert::Infallible>(Response::new(Bytes::from(text.into_bytes())))
+    } }));
+    let mut sc = Config::default();
+    sc.connect_timeout_ms = Some(3000);
+    let mut quic = anemo::QuicConfig::default();
+    quic.max_concurrent_bidi_streams = Some(4);
+    sc.quic = Some(quic);
+    let server = anemo::Network::bind("127.0.0.1:0").server_name("verif").private_key([121; 32]).config(sc).start(svc).expect("server");
+    let client = network(122, None);
+    let sid = client.connect(server.local_addr()).await.expect("connect");
+    let started = |id: &str| recs.lock().unwrap().get(id).map(|r| r.started).unwrap_or(false);
+    let rec = |id: &str| recs.lock().unwrap().get(id).cloned().unwrap_or_default();
+    let wait_started = |id: &'static str| { let recs = recs.clone(); async move { for _ in 0..200 { if recs.lock().unwrap().get(id).map(|r| r.started).unwrap_or(false) { return true; } tokio::time::sleep(Duration::from_millis(5)).await; } false } };
+    let mut out = serde_json::Map::new();
+    // (a) dropped after the remote handler started
+    let (c2, h) = (client.clone(), ());
+    let t = tokio::spawn(async move { let _ = h; c2.rpc(sid, Request::new(Bytes::from_static(b"slow:a:5000"))).await.is_ok() });
+    let a_started = wait_started("a").await;
+    t.abort();
+    tokio::time::sleep(Duration::from_millis(1000)).await;
+    out.insert("dropped_after_handler_started".into(), json!({"handler_started": a_started, "handler_dropped_unfinished_after_ms": rec("a").dropped_unfinished_after_ms, "handler_ran_to_completion": rec("a").completed}));
+    // (b) abandoned by a timeout
+    let r = tokio::time::timeout(Duration::from_millis(150), client.rpc(sid, Request::new(Bytes::from_static(b"slow:b:5000")))).await;
+    tokio::time::sleep(Duration::from_millis(1000)).await;
+    out.insert("timed_out".into(), json!({"caller_timed_out": r.is_err(), "handler_started": started("b"), "handler_dropped_unfinished_after_ms": rec("b").dropped_unfinished_after_ms, "handler_ran_to_completion": rec("b").completed}));
+    // (c) dropped before it was ever polled
+    { let f = client.rpc(sid, Request::new(Bytes::from_static(b"slow:c:5000"))); drop(f); }
+    tokio::time::sleep(Duration::from_millis(200)).await;
+    out.insert("dropped_before_polled".into(), json!({"handler_started": started("c")}));
+    // (d) dropped while a 4 MB request is being transmitted
+    let mut big = b"slow:d:5000".to_vec(); big.resize(4 << 20, 0);
+    let c3 = client.clone();
+    let t = tokio::spawn(async move { c3.rpc(sid, Request::new(Bytes::from(big))).await.is_ok() });
+    tokio::time::sleep(Duration::from_millis(2)).await;
+    t.abort();
+    tokio::time::sleep(Duration::from_millis(1200)).await;
+    out.insert("dropped_while_sending".into(), json!({"handler_started": started("d"), "handler_dropped_unfinished_after_ms": rec("d").dropped_unfinished_after_ms, "handler_ran_to_completion": rec("d").completed}));
+    // (e) + (f): 40 abandoned RPCs against 4 concurrent streams, with one long RPC in flight the whole time
+    let c4 = client.clone();
+    let long = tokio::spawn(async move { let r = c4.rpc(sid, Request::new(Bytes::from_static(b"slow:long:1500"))).await; matches!(r, Ok(ref resp) if resp.body().starts_with(b"slow:long")) });
+    tokio::time::sleep(Duration::from_millis(50)).await;
+    let mut abandoned = 0u32;
+    for k in 0..40u32 {
+        let c5 = client.clone();
+        let body = Bytes::from(format!("slow:e{k}:5000").into_bytes());
+        let t = tokio::spawn(async move { c5.rpc(sid, Request::new(body)).await.is_ok() });
+        tokio::time::sleep(Duration::from_millis(15)).await;
+        t.abort(); abandoned += 1;
+    }
+    let t0 = std::time::Instant::now();
+    let after = tokio::time::timeout(Duration::from_secs(3), client.rpc(sid, Request::new(Bytes::from_static(b"after")))).await;
+    let after_ok = matches!(after, Ok(Ok(ref r)) if r.body().as_ref() == b"after");
+    let after_ms = t0.elapsed().as_millis() as u64;
+    let long_ok = tokio::time::timeout(Duration::from_secs(4), long).await.map(|r| r.unwrap_or(false)).unwrap_or(false);
+    tokio::time::sleep(Duration::from_millis(300)).await;
+    let (mut ran, mut still) = (0u32, 0u32);
+    for k in 0..40u32 { let r = rec(&format!("e{k}")); if r.completed { ran += 1; } if r.started && r.dropped_unfinished_after_ms.is_none() && !r.completed { still += 1; } }
+    out.insert("many_abandoned".into(), json!({"abandoned": abandoned, "listener_concurrent_streams": 4, "later_rpc_ok": after_ok, "later_rpc_ms": after_ms, "handlers_that_ran_to_completion": ran, "handlers_still_running_300ms_later": still, "rpc_in_flight_meanwhile_ok": long_ok}));
+    Value::Object(out)
+}
+
 fn fnv(b: &[u8]) -> u64 { let mut h: u64 = 0xcbf29ce484222325; for x in b { h ^= *x as u64; h = h.wrapping_mul(0x100000001b3); } h }
 /// C02 end to end on real networks that have BOTH default timeouts configured (so both timeout middlewares are in the path): requests with
 /// header maps of 0..300 entries (a `timeout` header longer and shorter than the defaults, mixed-case names, empty and long values) and bodies of
@@ -772,7 +853,7 @@ async fn history(args: &Value) -> Value {
 
 fn main() {
     let args: Vec<String> = std::env::args().collect();
-    let multi = matches!(args.get(1).map(|s| s.as_str()), Some("admission") | Some("default_timeouts") | Some("rpc_pairing") | Some("history") | Some("oversize_confined") | Some("hostile_streams") | Some("network_names") | Some("claimed_name_grid") | Some("stolen_certificate") | Some("typed_rpc_roundtrip") | Some("busy_node_still_dials") | Some("panicking_handler") | Some("end_to_end_fidelity") | Some("mutual_dial_inflight") | Some("identity_claims_in_headers") | Some("header_only_deadline") | Some("hostile_requests"));
+    let multi = matches!(args.get(1).map(|s| s.as_str()), Some("admission") | Some("default_timeouts") | Some("rpc_pairing") | Some("history") | Some("oversize_confined") | Some("hostile_streams") | Some("network_names") | Some("claimed_name_grid") | Some("stolen_certificate") | Some("abandoned_rpcs") | Some("typed_rpc_roundtrip") | Some("busy_node_still_dials") | Some("panicking_handler") | Some("end_to_end_fidelity") | Some("mutual_dial_inflight") | Some("identity_claims_in_headers") | Some("header_only_deadline") | Some("hostile_requests"));
     let rt = if multi {
         tokio::runtime::Builder::new_multi_thread().worker_threads(2).enable_all().build().unwrap()
     } else {
@@ -909,6 +990,7 @@ async fn run(args: Vec<String>) {
         "end_to_end_fidelity" => end_to_end_fidelity(&a).await,
         "panicking_handler" => panicking_handler(&a).await,
         "auth_sweep" => auth_sweep(&a).await,
+        "abandoned_rpcs" => abandoned_rpcs(&a).await,
         "codegen_routes" => codegen::codegen_routes(&a).await,
         "typed_rpc_roundtrip" => hostile::typed_rpc_roundtrip(&a).await,
         "busy_node_still_dials" => busy_node_still_dials(&a).await,
